@@ -249,8 +249,9 @@ var c08Fmts = func() map[string]*c08Gf {
 		return c08FOpt(a).tagged("bootstrapping.EvaluationKeys.ReadFrom/stale-optional-fields")
 	}
 	return map[string]*c08Gf{
-		"u8": u8, "u64": u64, "vecu64": vecOf(u64),
-		"poly": poly, "polyqp": polyQP, "scale": scale, "ptmeta": ptMeta, "ctmeta": ctMeta, "meta": meta,
+		"u8": u8, "u64": u64, "vecu64": vecOf(u64), "vecu32": vecOf(c08FUint(4)), "vecu16": vecOf(c08FUint(2)), "vecu8": vecOf(u8),
+		"mappoly": mapOf(poly),
+		"poly":    poly, "polyqp": polyQP, "scale": scale, "ptmeta": ptMeta, "ctmeta": ctMeta, "meta": meta,
 		"ct": ct, "pt": ct, "elqp": element(polyQP), "vecqp": vectorQP, "pk": vectorQP, "sk": polyQP,
 		"gct": gadget, "evk": evk, "rlk": evk, "gk": gk, "evkset": evkset,
 		"rgsw": c08FPair(gadget, gadget),
